@@ -125,6 +125,7 @@ type RO struct {
 	Iss       int
 	AudOK     bool
 	AudAbsent bool // rendering only
+	EncHow    string `json:",omitempty"` // rendering only, for EncBad: "" another key | keyalg | contentalg | nokid (server key otherwise)
 	Exp       *int
 	Nbf       *int
 	Iat       *int
@@ -165,6 +166,7 @@ type JOp struct {
 	Obj      *RO
 	RefHTTPS bool
 	Note     string
+	Cell     string `json:",omitempty"` // the cell of the deviation matrix this operation covers (meta.json)
 }
 
 func (o JOp) coq() string {
@@ -423,10 +425,22 @@ func (jw *JWorld) render(o *RO) string {
 	switch o.Enc {
 	case "EncOk", "EncBad":
 		pub := &srvEncKey.PublicKey
+		keyAlg, contentAlg, kid := jose.RSA_OAEP_256, jose.A128CBC_HS256, "srv-enc"
 		if o.Enc == "EncBad" {
-			pub = &foreignEncKey.PublicKey
+			// a JWE the server must not open: made for another key, or for the right key with an
+			// algorithm that is not enabled, or without the kid that names the key
+			switch o.EncHow {
+			case "keyalg":
+				keyAlg = jose.RSA_OAEP
+			case "contentalg":
+				contentAlg = jose.A256GCM
+			case "nokid":
+				kid = ""
+			default:
+				pub = &foreignEncKey.PublicKey
+			}
 		}
-		enc, err := jose.NewEncrypter(jose.A128CBC_HS256, jose.Recipient{Algorithm: jose.RSA_OAEP_256, Key: pub, KeyID: "srv-enc"},
+		enc, err := jose.NewEncrypter(contentAlg, jose.Recipient{Algorithm: keyAlg, Key: pub, KeyID: kid},
 			(&jose.EncrypterOptions{}).WithType("jwt").WithContentType("jwt"))
 		if err != nil {
 			panic(err)
